@@ -75,18 +75,22 @@ def run(cmd, cwd=None, timeout=None, inp=None, env=None):
 # --------------------------------------------------------------------------------------------------
 # Lean side
 # --------------------------------------------------------------------------------------------------
-def translate():
+def translate(lean_dir=None, neutralise=False):
     """regenerate Gen/*.lean from the header; returns the translator's report"""
-    rc, out = run([sys.executable, os.path.join(HERE, 'translate.py')])
-    rep_path = os.path.join(LEAN, 'SvModel', 'Gen', 'translate_report.json')
+    lean_dir = lean_dir or LEAN
+    env = dict(os.environ, VERIF_GEN_DIR=os.path.join(lean_dir, 'SvModel', 'Gen'))
+    if neutralise:
+        env['VERIF_NEUTRALISE'] = '1'
+    rc, out = run([sys.executable, os.path.join(HERE, 'translate.py')], env=env)
+    rep_path = os.path.join(lean_dir, 'SvModel', 'Gen', 'translate_report.json')
     rep = json.load(open(rep_path)) if os.path.exists(rep_path) else {}
     rep['rc'] = rc
     rep['stdout'] = out[-2000:]
     return rep
 
 
-def lake_build(targets, timeout=3000):
-    rc, out = run(['lake', 'build'] + list(targets), cwd=LEAN, timeout=timeout)
+def lake_build(targets, timeout=3000, lean_dir=None):
+    rc, out = run(['lake', 'build'] + list(targets), cwd=lean_dir or LEAN, timeout=timeout)
     return rc, out
 
 
@@ -110,18 +114,18 @@ def module_errors(out):
     return errs
 
 
-def audit(theorems, modules):
+def audit(theorems, modules, lean_dir=None):
     """#print axioms for every named theorem; returns {name: [axioms] | 'missing'}"""
     if not theorems:
         return {}
     os.makedirs(os.path.join(CACHE, 'audit'), exist_ok=True)
-    path = os.path.join(CACHE, 'audit', 'Audit_%s.lean' % sha(*theorems)[:12])
+    path = os.path.join(CACHE, 'audit', 'Audit_%s%s.lean' % (sha(*theorems)[:12], '_n' if lean_dir else ''))
     with open(path, 'w') as f:
         for m in modules:
             f.write('import %s\n' % m)
         for t in theorems:
             f.write('#print axioms %s\n' % t)
-    rc, out = run(['lake', 'env', 'lean', path], cwd=LEAN, timeout=900)
+    rc, out = run(['lake', 'env', 'lean', path], cwd=lean_dir or LEAN, timeout=900)
     res = {}
     for t in theorems:
         res[t] = 'missing'
@@ -166,15 +170,54 @@ def import_closure(modules):
     return seen
 
 
+def theorem_gen_deps():
+    """theorem -> generated definitions its proof depends on (tools/mkdeps.py, computed by Lean on the clean tree)"""
+    p = os.path.join(VERIF, 'properties.deps.json')
+    out = {}
+    if os.path.exists(p):
+        for pid, d in json.load(open(p)).items():
+            out.update(d.get('per_theorem', {}))
+    return out
+
+
+NEUTRAL = os.path.join(CACHE, 'lean_neutral')
+
+
+def neutral_stage(modules, theorems):
+    """re-check `theorems` with every generated definition that differs from the baseline put back to its baseline text.
+    Sound for theorems that do not depend on those definitions: the kernel checks them in an environment that differs
+    from the current one only in constants they never mention."""
+    os.makedirs(NEUTRAL, exist_ok=True)
+    run(['rsync', '-a', '--delete', LEAN + '/', NEUTRAL + '/'])
+    rep = translate(lean_dir=NEUTRAL, neutralise=True)
+    # modules whose sources import only what is needed; the driver is not built here
+    rc, out = lake_build(modules, lean_dir=NEUTRAL)
+    ax = audit(theorems, modules, lean_dir=NEUTRAL)
+    return ax, rep, rc
+
+
 def lean_stage(modules, theorems, need_driver=True):
     """translate + build + audit, serialised across concurrent checks. Returns a dict describing what holds."""
     t0 = time.time()
+    carried = {}
     with Lock('lean'):
         rep = translate()
         targets = list(modules) + (['svdriver'] if need_driver else [])
         rc, out = lake_build(targets)
         errs = module_errors(out) if rc != 0 else {}
         ax = audit(theorems, modules) if theorems else {}
+        changed = set(n for names in rep.get('changed_vs_baseline', {}).values() for n in names)
+        missing = [t for t, a in ax.items() if a == 'missing']
+        if missing and changed:
+            deps = theorem_gen_deps()
+            unaffected = [t for t in missing if t in deps and not (set(deps[t]) & changed)]
+            if unaffected:
+                nax, nrep, nrc = neutral_stage(modules, unaffected)
+                for t in unaffected:
+                    a = nax.get(t, 'missing')
+                    if a != 'missing':
+                        ax[t] = a
+                        carried[t] = 'checked with the changed generated definitions (%s) put back to their baseline text: its proof depends on none of them' % ', '.join(sorted(changed))
     forbidden = grep_forbidden()
     broken = []
     for t, a in ax.items():
@@ -185,7 +228,8 @@ def lean_stage(modules, theorems, need_driver=True):
             if extra:
                 broken.append(dict(theorem=t, why='depends on non-permitted axioms: ' + ', '.join(extra)))
     return dict(translate=rep, build_rc=rc, build_errors=errs, build_tail=out[-3000:] if rc != 0 else '', axioms=ax, forbidden=forbidden,
-                broken=broken, untranslatable=rep.get('untranslatable', []), wall_s=time.time() - t0,
+                broken=broken, untranslatable=rep.get('untranslatable', []), wall_s=time.time() - t0, carried=carried,
+                changed_generated=sorted(changed),
                 driver_ok=os.path.exists(DRIVER) and not any(m in errs for m in ('SvModel.Api', 'SvModel.Ops', 'SvModel.Prim', 'SvModel.Basic', 'Main')))
 
 
